@@ -454,6 +454,50 @@ def contract_delegations(paths: list, model: Model) -> list:
     return [replace(p, conds=tuple(mapterm(c, fn) for c in p.conds), value=mapterm(p.value, fn) if p.kind == "return" else p.value) for p in paths]
 
 
+_ITER_PARAMS: dict = {}
+
+
+def strip_iterable_args(paths: list, model: Model) -> list:
+    """An argument bound to a parameter that the callee declares `Iterable[...]` is only ever iterated: `f(tuple(xs))`, `f(list(xs))` and `f(xs)`
+    hand it the same items in the same order."""
+    from dataclasses import replace
+
+    from .oneshot import OneShot
+    key = id(model)
+    if key not in _ITER_PARAMS:
+        _ITER_PARAMS[key] = (OneShot(model), {})
+    eng, cache = _ITER_PARAMS[key]
+
+    def iter_params(q):
+        if q not in cache:
+            f_ = model.functions.get(q)
+            if f_ is None:
+                cache[q] = None
+            else:
+                pos = [p_ for p_ in f_.params if not (f_.cls is not None and not f_.is_staticmethod and p_ == f_.params[0])]
+                cache[q] = (pos, set(eng.one_shot_params(f_)))
+        return cache[q]
+
+    def bare(a):
+        while is_term(a) and a[0] == "call" and a[1] in ("tuple", "list", "iter") and len(a[2]) == 1 and not a[3] and is_term(a[2][0]) \
+                and a[2][0][0] in ("call", "comp", "accum", "meth", "var", "attr", "setof", "union", "diff", "inter"):
+            a = a[2][0]
+        return a
+
+    def fn(s_):
+        if s_[0] == "call" and isinstance(s_[1], str) and len(s_) == 4:
+            ip = iter_params(s_[1])
+            if not ip or not ip[1]:
+                return None
+            pos, its = ip
+            args = tuple(bare(a) if i < len(pos) and pos[i] in its else a for i, a in enumerate(s_[2]))
+            kws = tuple((k, bare(v) if k in its else v) for k, v in s_[3])
+            if args != s_[2] or kws != s_[3]:
+                return ("call", s_[1], args, kws)
+        return None
+    return [replace(p, conds=tuple(mapterm(c, fn) for c in p.conds), value=mapterm(p.value, fn) if p.kind == "return" else p.value) for p in paths]
+
+
 def normalise_items(paths: list) -> list:
     """Iteration over d.items() is iteration over the keys with the value read as d[k] (so both spellings of a loop agree)."""
     from dataclasses import replace
@@ -1259,6 +1303,7 @@ def compare_with_reference(model: Model, impl_q: str, ref_q: str, types: dict[st
     pi, pr = lam_refs(pi, model, mk_ev), lam_refs(pr, model, mk_ev)
     pi, pr = normalise_items(pi), normalise_items(pr)
     pi, pr = contract_delegations(pi, model), contract_delegations(pr, model)
+    pi, pr = strip_iterable_args(pi, model), strip_iterable_args(pr, model)
     pi, pr = resolve_ites(pi), resolve_ites(pr)
     pi, pr = split_boolean_data(pi, ev_i), split_boolean_data(pr, ev_r)
     pi, pr = expand_quantifiers(pi, ev_i), expand_quantifiers(pr, ev_r)
